@@ -239,7 +239,13 @@ def r3(ctx):
         left = tg.get(0)
         right = tg.get(1)
         lp = [s for s in pushes if left is not None and fa.dominates(left, s)]
-        ctx.check(P, rule, "missing stored node becomes a read instruction", bool(lp), "Left(instruction) arm pushes onto the instruction list",
+        # the same without a list: the Left arm returns Ok(Left([instruction])) at once, and no
+        # Ok(Right(changeset)) can be reached from it
+        direct = False
+        if not lp and left is not None:
+            rv_ = [t_ for _, _, t_ in ret_values_in_region(fa, left)]
+            direct = bool(rv_) and all(is_agg(t_, "Ok") and is_agg(strip(agg_field(t_, "0")) if not is_agg(agg_field(t_, "0")) else agg_field(t_, "0"), "Left") and term_has_call(t_, MT_REQUIRED_NODE) == rs for t_ in rv_)
+        ctx.check(P, rule, "missing stored node becomes a read instruction", bool(lp) or direct, "Left(instruction) arm pushes onto the instruction list (or returns Ok(Left([instruction])) at once)",
                   "the Left (node not loaded yet) arm does not record a read instruction: the root would go unchecked")
         ctx.check(P, rule, "hash comparison is on the loaded-node arm", right is not None and fa.dominates(right, cs), "comparison dominated by the Right(node) arm", "hash comparison is not on the Right(node) arm")
         # (3) Ok(Right(changeset)) only when no instruction is pending
